@@ -187,6 +187,26 @@ pub fn property() -> Property {
         |_| prop_oneof![2 => gens::text::unicode(24), 2 => gens::text::nasty(), 1 => ("[0-9]{1,3}\\.[0-9]{1,3}\\.[0-9]{1,3}", gens::text::unicode(10)).prop_map(|(a, b)| a + &b)].boxed(),
         check_one,
     );
+    let long = RandomSub::<String>::new(
+        "long-lookalike",
+        (30_000, 600_000),
+        |_| {
+            (valid_semver(), gens::pick(&[0usize, 40, 65, 70, 100, 129, 200, 260, 520]), any::<u64>(), prop::bool::weighted(0.7))
+                .prop_map(|(s, min_len, pick, disguise)| {
+                    let joiner = if s.contains('+') { "." } else if pick % 2 == 0 { "+" } else if s.contains('-') { "." } else { "-" };
+                    gens::text::lengthen_and_disguise(&s, joiner, min_len, &["ubuntu", "22", "4", "lts", "Kernel", "6", "18", "build", "7", "sha", "abc123", "Release", "x86", "64", "musl", "k8s", "SKU", "Iso", "0a", "1-1"], pick, disguise).0
+                })
+                .boxed()
+        },
+        |s, cx| {
+            cx.label_if(s.len() > 64, ">64-bytes");
+            cx.label_if(!s.is_ascii(), "disguised");
+            check_one(s, cx)?;
+            cx.nt_if(s.len() > 64);
+            Ok(())
+        },
+    )
+    .floor(0.3);
     // L2: the real binary gives the same verdict (exit status) and report
     let l2 = RandomSub::<String>::new(
         "cli-check",
@@ -228,7 +248,7 @@ pub fn property() -> Property {
             "a grammar-valid string whose number exceeds u64 may be rejected (range limit) but must never be accepted and printed differently",
             "cli-check passes strings as one argv element; strings starting with '-' or containing NUL are not sent through the binary",
         ],
-        subs: vec![e1.boxed(), e2.boxed(), r1.boxed(), r2.boxed(), l2.boxed()],
+        subs: vec![e1.boxed(), e2.boxed(), r1.boxed(), r2.boxed(), long.boxed(), l2.boxed()],
         known_repro: vec![],
     }
 }
